@@ -149,6 +149,18 @@ func buildNode(obj slip.Object, p *slip.Printer) (node Node) {
 			node = &Leaf{text: p.Append(nil, obj, 0)}
 		}
 	case slip.Funky:
+		if len(to.GetName()) == 0 {
+			// A call with a lambda expression as its head has no name, lay
+			// out its load form, ((lambda (x) ...) args), as a list.
+			if lf, ok := obj.(slip.LoadFormer); ok {
+				if form, _ := lf.LoadForm().(slip.List); 0 < len(form) {
+					node = newList(form, p, false)
+					break
+				}
+			}
+			node = &Leaf{text: p.Append(nil, obj, 0)}
+			break
+		}
 		node = buildCall(slip.Symbol(to.GetName()), to.GetArgs(), p)
 	case slip.Symbol:
 		node = &Leaf{text: []byte(to)}
